@@ -231,7 +231,27 @@ def analyze(ctx, want):
     for tname in ("internal::scanner_impl::ScannerImpl", "internal::compiled_scanner_mode::CompiledScannerMode", "internal::compiled_dfa::CompiledDfa",
                   "internal::compiled_lookahead::CompiledLookahead", "internal::compiled_dfa::StateData"):
         ims = [i for i in F.impls if i["of_trait"] and i["trait"] == "std::clone::Clone" and i["self"]["s"] == tname]
-        ob("C12.a", "clone-derived:" + tname.split("::")[-1], len(ims) == 1 and ims[0]["derived"],
+        faithful = None
+        if len(ims) == 1 and not ims[0]["derived"]:
+            # a hand-written Clone is accepted when it is the derive written out: one return path whose value is the same
+            # struct with every field cloned from the same field of `self`, in order (nothing defaulted, shared or recomputed)
+            body = [f_ for f_ in F.fns.values() if re.search(r"<%s as std::clone::Clone>::clone$" % re.escape(tname), f_.name)]
+            a_ = F.adts.get(tname)
+            fields_ = [f_["name"] for f_ in a_["variants"][0]["fields"]] if a_ and len(a_.get("variants", [])) == 1 else None
+            if len(body) == 1 and fields_:
+                try:
+                    ex_c, ps_c = run_fn(body[0], F, BaseModel(), max_paths=200)
+                    rp_c = ret_paths(ps_c)
+                    def from_self(v_, name_):
+                        s_ = re.sub(r"[&*()]", "", S.fstr(v_))
+                        return s_ == "self." + name_
+                    faithful = len(ps_c) == 1 and len(rp_c) == 1 and (
+                        re.sub(r"[&*()]", "", S.fstr(rp_c[0].end[1])) == "self" or
+                        (rp_c[0].end[1][0] == "adt" and str(rp_c[0].end[1][1]) == tname and len(rp_c[0].end[1][3]) == len(fields_)
+                         and all(from_self(v_, n_) for v_, n_ in zip(rp_c[0].end[1][3], fields_))))
+                except Exception:
+                    faithful = False
+        ob("C12.a", "clone-derived:" + tname.split("::")[-1], len(ims) == 1 and (ims[0]["derived"] or faithful is True),
            "Clone impls for %s: %s" % (tname, [(i["derived"]) for i in ims]), ims[0]["file"] if ims else "")
 
     # ============================================================== statics / back doors (C12.c)
